@@ -266,6 +266,16 @@ def _modfunc(rng, g, dom, kind):
     if fn.startswith("weighted"):
         w = [rng.choice([1, 2, -1, 0, 3]), rng.choice([1, 2, -1, 0, 5])] \
             if rng.random() < 0.6 else None
+        if w is not None and rng.random() < 0.3:
+            # weights of the value type's own kind: fractions for the float
+            # families, beyond 32 bits for the 64-bit ones (a weight is a
+            # value, not a C int)
+            if fam[1] == "F":
+                w = [rng.choice([0.5, 1.5, -0.25, 2.0]),
+                     rng.choice([0.5, 0.75, -1.5, 1.0])]
+            elif fam[1] in "LQ":
+                w = [rng.choice([2 ** 31, 2 ** 32 + 1, 2 ** 33, 1]),
+                     rng.choice([2 ** 31 + 1, 2 ** 32, 1, 3])]
         return ["mod", fn, [a, b], w]
     return ["mod", fn, [a, b]]
 
